@@ -279,37 +279,22 @@ def s3(ck: Check) -> None:
     it = loop.iter
     lst = text(it.args[0]) if isinstance(it, ast.Call) and callee_name(it) == "enumerate" else text(it)
     idx = text(loop.target.elts[0]) if isinstance(loop.target, ast.Tuple) else None
+    # the list of child motifs: the other list that is encoded into the initial avoid set
+    enc = [text(c.args[1]) for c in own_walk(fm.f.node) if isinstance(c, ast.Call) and callee_name(c) == "state_list_to_bdd"
+           and len(c.args) == 2]
+    child_lists = [x for x in enc if x != lst]
+    child = child_lists[0] if len(child_lists) == 1 else "child_motifs_reduced"
     n_ret = 0
     for n in ast.walk(loop):
         if isinstance(n, ast.Return):
             n_ret += 1
-            tr = logic.Translator(lambda e: text(e), numeric={idx} if idx else set())
-            me = fm
-
-            def expand(nm, at=fm.cfgn(n)):
-                sd_ = me.single_def(nm.id, at)
-                if sd_ and isinstance(sd_[1], (ast.Compare, ast.BoolOp)):
-                    return sd_[1]
-                return None
-
-            tr.expand = expand
-            fs = []
-            for test, pol, b in fm.facts(fm.cfgn(n)):
-                if b.loop is not None:
-                    continue
-                ff = tr.f(test)
-                fs.append(ff if pol else logic.Not(ff))
-            pc = logic.And(*fs)
-            want = logic.And(logic.B("T:seeds_only"), logic.Not(logic.Lt("0", "len(child_motifs_reduced)")),
-                             logic.Not(logic.Lt("0", f"len({seeds_name})")))
-            last = None
+            at = fm.cfgn(n)
+            pc = fm.pc(at, numeric={idx} if idx else set())
+            tr = fm.translator(at, numeric={idx} if idx else set())
+            src = f"seeds_only and len({child}) == 0 and len({seeds_name}) == 0"
             if idx:
-                # i == len(list) - 1
-                last = logic.B(f"eq:{idx}|len({lst}) - 1")
-                alt = logic.B(f"eq:len({lst}) - 1|{idx}")
-                if last[1] not in logic.atoms(pc) and alt[1] in logic.atoms(pc):
-                    last = alt
-                want = logic.And(want, last)
+                src += f" and {idx} == len({lst}) - 1"
+            want = tr.f(ast.parse(src, mode="eval").body)
             try:
                 ok = logic.implies(pc, want)
             except logic.TooBig:
